@@ -117,6 +117,20 @@ def function_sites(fn: ast.AST, module_tree: ast.AST) -> list[tuple[str, ast.AST
             v = _strip_cast(r_.value)
             if isinstance(v, ast.Name) and v.id not in params and defs.get(v.id) and all(isinstance(d, ast.Call) and unparse(d.func).split("[")[0] in MUTABLE_CTORS for d in defs[v.id]):
                 out.append(("mutable-returned-as-immutable", r_, f"{v.id} = {unparse(defs[v.id][0])[:40]}; -> {ret_ann[:30]}"))
+    # a shallow copy shares the containers held in the fields of the original
+    shallow = {n.targets[0].id: n for n in ast.walk(fn) if isinstance(n, ast.Assign) and len(n.targets) == 1 and isinstance(n.targets[0], ast.Name) and isinstance(n.value, ast.Call) and unparse(n.value.func) in ("copy", "copy.copy") and len(n.value.args) == 1}
+    for nm, bind in shallow.items():
+        for n in ast.walk(fn):
+            hit = None
+            if isinstance(n, ast.Call) and isinstance(n.func, ast.Attribute) and n.func.attr in MUTATORS and isinstance(n.func.value, ast.Attribute) and isinstance(n.func.value.value, ast.Name) and n.func.value.value.id == nm:
+                hit = n
+            elif isinstance(n, ast.AugAssign) and isinstance(n.target, ast.Attribute) and isinstance(n.target.value, ast.Name) and n.target.value.id == nm and isinstance(n.op, (ast.Add, ast.BitOr)) and isinstance(n.value, (ast.List, ast.Set, ast.Dict, ast.ListComp)):
+                hit = n
+            elif isinstance(n, ast.Assign) and any(isinstance(t, ast.Subscript) and isinstance(t.value, ast.Attribute) and isinstance(t.value.value, ast.Name) and t.value.value.id == nm for t in n.targets):
+                hit = n
+            if hit is not None:
+                out.append(("shallow-copy-updated-in-place", hit, f"{nm} = {unparse(bind.value)[:40]}"))
+                break
     bare = [(r_, _strip_cast(r_.value).id) for r_ in rets if isinstance(_strip_cast(r_.value), ast.Name) and _strip_cast(r_.value).id in params and _strip_cast(r_.value).id not in defs and _strip_cast(r_.value).id not in ("self", "cls")]
     for r_, p in bare:
         copies = [o for o in rets if o is not r_ and (_is_copy_of(_strip_cast(o.value), p) or (isinstance(_strip_cast(o.value), ast.Name) and any(_is_copy_of(d, p) for d in defs.get(_strip_cast(o.value).id, []))))]
@@ -149,6 +163,52 @@ def function_sites(fn: ast.AST, module_tree: ast.AST) -> list[tuple[str, ast.AST
     return out
 
 
+def getter_sites(module_tree: ast.AST) -> list[tuple[str, str, ast.AST, ast.AST]]:
+    """(class.method, field, return node, mutation node): a method hands out one of the object's own mutable containers
+    (`return self._f`, return type set / list / dict) and some code of the module updates the result of a call of that method
+    in place (`b = c.m(); b &= other`): the update lands in the object the getter belongs to."""
+    out = []
+    getters: dict[str, tuple[str, str, ast.AST]] = {}
+    for c in ast.walk(module_tree):
+        if not isinstance(c, ast.ClassDef):
+            continue
+        for m in c.body:
+            if not isinstance(m, ast.FunctionDef) or m.name.startswith("__") or any(unparse(d) in ("property", "cached_property", "functools.cached_property") for d in m.decorator_list):
+                continue
+            ann = unparse(m.returns) if m.returns is not None else ""
+            if not re.match(r"(set|list|dict|defaultdict|deque)\[", ann):
+                continue
+            for r_ in ast.walk(m):
+                if isinstance(r_, ast.Return) and isinstance(r_.value, ast.Attribute) and isinstance(r_.value.value, ast.Name) and r_.value.value.id == "self":
+                    getters[m.name] = (f"{c.name}.{m.name}", r_.value.attr, r_)
+    if not getters:
+        return out
+    for g in ast.walk(module_tree):
+        if not isinstance(g, (ast.FunctionDef, ast.AsyncFunctionDef)):
+            continue
+        holders: dict[str, str] = {}
+        for n in ast.walk(g):
+            if isinstance(n, ast.Assign) and len(n.targets) == 1 and isinstance(n.targets[0], ast.Name) and isinstance(n.value, ast.Call) and isinstance(n.value.func, ast.Attribute) and n.value.func.attr in getters:
+                holders[n.targets[0].id] = n.value.func.attr
+        # one level of aliases: `acc = b`
+        for n in ast.walk(g):
+            if isinstance(n, ast.Assign) and len(n.targets) == 1 and isinstance(n.targets[0], ast.Name) and isinstance(n.value, ast.Name) and n.value.id in holders:
+                holders.setdefault(n.targets[0].id, holders[n.value.id])
+        for n in ast.walk(g):
+            nm = None
+            if isinstance(n, ast.AugAssign) and isinstance(n.target, ast.Name) and n.target.id in holders and isinstance(n.op, (ast.BitAnd, ast.BitOr, ast.Sub, ast.BitXor, ast.Add)):
+                nm = n.target.id
+            elif isinstance(n, ast.Call) and isinstance(n.func, ast.Attribute) and n.func.attr in MUTATORS and isinstance(n.func.value, ast.Name) and n.func.value.id in holders:
+                nm = n.func.value.id
+            elif isinstance(n, ast.Assign) and any(isinstance(t, ast.Subscript) and isinstance(t.value, ast.Name) and t.value.id in holders for t in n.targets):
+                nm = next(t.value.id for t in n.targets if isinstance(t, ast.Subscript) and isinstance(t.value, ast.Name) and t.value.id in holders)
+            if nm is not None:
+                q, fld, rnode = getters[holders[nm]]
+                out.append((q, fld, rnode, n))
+                break
+    return out
+
+
 def check(idx: Index, rep: Report, prop: str) -> None:
     r = rep.rule(f"{prop}.A1", "no object of the anchored code keeps a container argument by reference where it copies it on another branch, or where the parameter is declared read-only (Iterable / Sequence / Mapping ...) and the object updates the field in place", floor=None)
     pos = ast.parse("class D:\n    def __init__(self, values: Iterable[int] = ()):\n        self._v = values if isinstance(values, list) else list(values)\n    def add(self, x):\n        self._v.append(x)\n").body[0]
@@ -175,10 +235,14 @@ def check(idx: Index, rep: Report, prop: str) -> None:
                 else:
                     msg = f"`self.{fld} = {p}` keeps the argument by reference although `{p}` is declared read-only ({detail.split(';')[0]}) and the class updates the field in place ({detail.split(';')[1].strip()}): a caller's list is written to behind its back, a tuple / generator argument fails later"
                 r.fail(inst, Finding(f"{prop}.A1", f"{mi.name}.{c.name}", f"captured-argument-{kind}:{fld}", msg, f"{rel}:{node.lineno}"))
+        for q, fld, rnode, mut in getter_sites(mi.tree):
+            r.fail(f"{rel}:{q}:getter", Finding(f"{prop}.A1", f"{mi.name}.{q}", f"internal-container-handed-out:{fld}", f"`{unparse(rnode)}` hands out the object's own `{fld}` and `{unparse(mut)[:60]}` (line {mut.lineno}) updates the result of that method in place: the update changes the object the container belongs to, so a later query of the same object answers from the modified container", f"{rel}:{rnode.lineno}"))
         for f in mi.functions.values():
             for kind, node, detail in function_sites(f.raw_node, mi.tree):
                 inst = f"{rel}:{f.qualname}:{kind}"
-                if kind == "mutable-returned-as-immutable":
+                if kind == "shallow-copy-updated-in-place":
+                    msg = f"`{unparse(node)[:70]}` updates in place a container that belongs to a field of `{detail}`: a shallow copy shares the containers of the original, so the update is also made to the object that was copied (and to every other shallow copy of it)"
+                elif kind == "mutable-returned-as-immutable":
                     msg = f"`{unparse(node)}` hands out the mutable buffer `{detail.split(';')[0]}` although the function is declared `{detail.split(';')[1].strip()}`: the result compares equal to the immutable value but cannot be hashed and can be changed in place by whoever holds it"
                 else:
                     msg = f"`{unparse(node)}` returns the caller's `{detail.split(';')[0]}` itself while another path returns a fresh copy, and a caller updates the result in place ({detail.split(';')[1].strip()}): on the no-copy path that update is written into the argument, i.e. into an object the caller's caller still owns and may reuse"
